@@ -340,7 +340,18 @@ func (s *Server) doUpdateOrReplace(ctx context.Context, prefix *gnmi.Path, u *gn
 			log.Warnf("no pathValues found for %s in %v", basePath, string(jsonVal))
 		}
 
+		// What the document decomposes to is held against the model like the path of a scalar update
 		for _, cv := range pathValues {
+			if err := checkPathIndexValues(cv.Path); err != nil {
+				return err
+			}
+			_, rwPathElem, err := pathutils.FindPathFromModel(cv.Path, target.plugin.GetInfo().ReadWritePaths, true)
+			if err != nil {
+				return err
+			}
+			if err = pathutils.CheckKeyValue(cv.Path, rwPathElem, &cv.Value); err != nil {
+				return err
+			}
 			target.updates[cv.Path] = &cv.Value
 		}
 	} else {
